@@ -14,6 +14,8 @@ use std::collections::{BTreeMap, BTreeSet};
 use std::path::{Path, PathBuf};
 
 type RS = Vec<(PathBuf, PathBuf, CovResult)>;
+mod cobade;
+mod docs;
 
 fn want_map(rs: &RS, lines: bool, branches: bool, fns: bool) -> BTreeMap<String, CovResult> {
     rs.iter()
@@ -476,6 +478,8 @@ pub fn run(rep: &mut Report) {
                 json!({"op": "array", "request": reqs[k], "impl": impl_arr[k], "model": ans[k]}));
         }
     }
+    cobade::run(rep);
+    docs::run(rep);
 }
 
 fn html_case(rep: &mut Report, rng: &mut Rng, rs: &RS, reqs: &mut Vec<String>, impl_arr: &mut Vec<String>) {
@@ -542,6 +546,10 @@ fn html_case(rep: &mut Report, rng: &mut Rng, rs: &RS, reqs: &mut Vec<String>, i
 }
 
 pub fn replay(rep: &mut Report, case: &serde_json::Value) {
+    if case["op"].as_str().map(|o| o.starts_with("c03.cob") || o.starts_with("c03.ade")).unwrap_or(false) {
+        return cobade::replay(rep, case);
+    }
+    if case["op"].as_str().map(|o| o.starts_with("c03.docs.")).unwrap_or(false) { return docs::replay(rep, case); }
     rep.notes.push(format!("replay: re-run ./check C03 with the same seed (format {})", case["format"]));
 }
 
